@@ -23,6 +23,14 @@ ENCODED = [
     "resonaate.sensors.field_of_view:ConicFoV.inFieldOfView",
     "resonaate.sensors.field_of_view:RectangularFoV.inFieldOfView",
     "resonaate.sensors.sensor_base:Sensor.isVisible",
+    "resonaate.sensors.sensor_base:Sensor.__init__",
+    "resonaate.sensors.sensor_base:Sensor.az_mask",
+    "resonaate.sensors.sensor_base:Sensor.el_mask",
+    "resonaate.sensors.sensor_base:Sensor._setInitialBoresight",
+    "resonaate.sensors.radar:Radar.fromConfig",
+    "resonaate.sensors.radar:Radar.__init__",
+    "resonaate.sensors.optical:Optical.fromConfig",
+    "resonaate.sensors.optical:Optical.__init__",
     "resonaate.physics.measurements:getAzimuth",
     "resonaate.physics.measurements:getElevation",
     "resonaate.physics.maths:subtendedAngle",
@@ -34,18 +42,51 @@ BOUNDS = {
     "O2": "any two non-zero directions, cone angle in [0, 2pi]",
     "O3": "azimuths in [0,2pi), elevations in [-pi/2,pi/2], FoV widths in [0, 2pi] x [0, pi], any common azimuth rotation in [0,2pi)",
     "O4": "any azimuth in [0,2pi), elevation, range; masks in their documented ranges, wrapping or not",
-    "O5": "any Sun / satellite positions outside the bodies",
+    "O4b": ("sensors built by Radar / Optical / AdvRadar.fromConfig; azimuth_range = [m0, m1] degrees, each in [0, 359.999], either order "
+            "(m0 > m1 = mask through north); elevation_range = [e0, e1] degrees in [-89.999, 89.999] with e0 <= e1; target azimuth in [0,2pi), "
+            "elevation in [-pi/2,pi/2], LoS either way; min/max range None (thorough O4b-range: symbolic, 0 <= rmin <= rmax); claims hold for "
+            "directions at least 1e-9 rad away from the mask edges (degree->radian rounding), the edges themselves are O4's subject"),
+    "O5": ("any Sun / satellite positions outside the bodies; domain[...] and umbra-axis-zero additionally: |sat| <= 10.5 Earth radii, "
+           "|sun| >= 1.35e8 km; umbra-axis-zero: satellite exactly on the Earth-Sun line behind the Earth"),
+    "O5c": ("apparent Sun radius a, apparent Earth radius b, apparent separation c as independent solver variables with 0 < a, a + 0.001 <= b < pi/2, "
+            "0 <= c <= 1.5 rad (every realistic geometry down to ~20 km altitude; the cap on c keeps counterexamples realisable as positions "
+            "that are not on the sunward side); the tolerance variant asks for a deviation > 1e-3 at least 1e-6 rad off the region edges, "
+            "the exact variant has no tolerance"),
     "O6": "any sensor distance >= limb radius, any target direction",
 }
-OUTSIDE = ["numerical range of the partial-occultation formula (nested arccos)", "floating-point rounding at exact tangency"]
+OUTSIDE = [
+    "lower end of the range of the penumbra value (>= 0) as a separate solver verdict: O5c proves the value EQUAL to 1 - overlap/disc area with the "
+    "overlap written as two circular segments, and <= 1; that the overlap of two discs is not larger than one of them is geometry the solver is "
+    "not asked (it needs the monotonicity of (t - sin t cos t)/sin^2 t, which the angle algebra does not carry)",
+    "O5c: that the three angles the formula works on ARE the apparent radii / separation of the given positions is covered only through O5 "
+    "(sunward side, anti-Sun axis, domains); a slip in them that keeps those three facts is not seen",
+    "deep umbra off the exact anti-Sun axis as a statement over positions (over the angles it is O5c's c < b - a branch)",
+    "apparent Sun disc larger than the apparent Earth disc (annular case a > b; never within 10 Earth radii)",
+    "elevation_range given as (upper, lower): the configuration calls it order independent, isVisible then admits nothing; not part of C14's text, "
+    "O4b assumes e0 <= e1",
+    "SensorAdditionEvent / pydantic validation on the way into fromConfig (a duck-typed configuration object is handed to the real fromConfig)",
+    "floating-point rounding at exact tangency / exactly on a mask edge",
+]
 ASSUMPTIONS = [
     "sqrt(x) is the non-negative root; arccos/arcsin/arctan2 are modelled by their (cos,sin) pair and range (angle algebra)",
     "cos is strictly decreasing on [0,pi], sin strictly increasing on [-pi/2,pi/2] (instantiated for the named pairs)",
     "pi is identified with the code's double constant const.PI",
-    "O3/O4: getAzimuth/getElevation/getRange/lineOfSight are replaced by providers of symbolic values in their documented ranges; O3b checks getAzimuth/getElevation themselves",
+    "O3/O4/O4b: getAzimuth/getElevation/getRange/lineOfSight are replaced by providers of symbolic values in their documented ranges; O3b checks getAzimuth/getElevation themselves",
+    "O4b: the configuration object is a namespace with the attributes fromConfig reads; non-mask attributes are fixed numbers; cos/sin of the boresight are opaque angle atoms (not used by isVisible)",
+    "O5/O5c: dot/norm of the positions are cut to the Gram entries of (sat, sun) after the solver proved each equal to the code's own term (_DiffCut)",
+    "O5c/O5b: arcsin (both calls) and the first arccos call are providers of the angle variables a, b, c in that call order (arcsin in (0,pi/2), arccos in [0,pi]); the later arccos calls are the real ones (angle algebra)",
+    "O5c: arccos is a function (equal arguments => equal values; instantiated between the code's applications and the oracle's law-of-cosines angles); lemma chain law of sines -> projection -> identification of the code's angles and half-chord, each lemma proved by the solver before use",
+    "O5c at-most-one: sin t <= t for t >= 0, instantiated for the two triangle angles (trusted)",
+    "O5 domain[...]: the domain conditions recorded by the engine (sqrt argument >= 0, arcsin/arccos argument in [-1,1], divisor != 0) are proved in program order, each from the path condition up to that point",
 ]
 
 R2 = None
+
+
+def _fr(x):
+    from fractions import Fraction
+
+    return Fraction(float(x))
 
 
 def _earth_r2():
@@ -482,10 +523,211 @@ def o4_masks(rep):
 
 
 # ------------------------------------------------------------------------------
-# O5 Sun visible fraction: branch structure
+# O4b masks configured through the sensor constructors (degrees) reach isVisible unchanged in meaning
 # ------------------------------------------------------------------------------
+_O4B_CLASSES = ("Radar", "Optical", "AdvRadar")
+
+
+def _sensor_cls(name):
+    from resonaate.sensors.advanced_radar import AdvRadar
+    from resonaate.sensors.optical import Optical
+    from resonaate.sensors.radar import Radar
+
+    return {"Radar": Radar, "Optical": Optical, "AdvRadar": AdvRadar}[name]
+
+
+def _sensor_cfg(cls_name, az_range, el_range, rmin=None, rmax=None):
+    """Duck-typed sensor configuration (the attributes `fromConfig` reads); masks in degrees as in the configuration files."""
+    from types import SimpleNamespace
+
+    n = 2 if cls_name == "Optical" else 4
+    return SimpleNamespace(azimuth_range=az_range, elevation_range=el_range, covariance=np.diag([1e-10] * n).tolist(), aperture_diameter=10.0,
+                           efficiency=0.9, slew_rate=3.0, background_observations=False, minimum_range=rmin, maximum_range=rmax,
+                           tx_power=1e6, tx_frequency=1e9, min_detectable_power=1e-14, detectable_vismag=25.0)
+
+
+def _deg_mask_oracle_py(d):
+    az, el = math.degrees(d["az"]), math.degrees(d["el"])
+    az_ok = (d["az0d"] <= az <= d["az1d"]) if d["az0d"] <= d["az1d"] else (az >= d["az0d"] or az <= d["az1d"])
+    rng_ok = d.get("rmin") is None or d["rmin"] <= d["rng"] <= d["rmax"]
+    return bool(rng_ok and d["los"] and d["el0d"] <= el <= d["el1d"] and az_ok)
+
+
+def replay_ctor_mask(data):
+    from types import SimpleNamespace
+
+    from resonaate.sensors import sensor_base as sb
+    from resonaate.sensors.field_of_view import ConicFoV
+
+    cls = _sensor_cls(data["cls"])
+    try:
+        s = cls.fromConfig(_sensor_cfg(data["cls"], [data["az0d"], data["az1d"]], [data["el0d"], data["el1d"]], data.get("rmin"), data.get("rmax")), ConicFoV(0.1))
+    except ValueError as e:
+        return True, {"constructor raised": str(e)}
+    s.host = SimpleNamespace(eci_state=np.array([7000.0, 0, 0, 0, 0, 0]), time=0.0)
+    az, el = data["az"], data["el"]
+    sez = np.array([-math.cos(el) * math.cos(az), math.cos(el) * math.sin(az), math.sin(el), 0, 0, 0.0]) * data.get("rng", 1000.0)
+    with shadow(sb, lineOfSight=lambda a, b: bool(data["los"])):
+        vis, why = sb.Sensor.isVisible(s, np.array([8000.0, 0, 0, 0, 0, 0]), 1.0, 0.2, sez)
+    exp = _deg_mask_oracle_py(data)
+    return bool(vis) != exp, {"sensor": data["cls"], "configured azimuth_range (deg)": [data["az0d"], data["az1d"]], "target azimuth (deg)": math.degrees(az),
+                              "stored az_mask (deg)": np.degrees(np.asarray(s.az_mask, dtype=float)).tolist(),
+                              "isVisible": bool(vis), "explanation": str(why), "oracle": exp}
+
+
+def o4b_ctor_masks(rep, classes=_O4B_CLASSES, with_range=False):
+    """A sensor built by `fromConfig` from azimuth_range = [m0, m1] / elevation_range = [e0, e1] in degrees (order of the azimuth pair is
+    the information: m0 > m1 is a mask through north) admits through the generic Sensor.isVisible exactly the directions inside them."""
+    from types import SimpleNamespace
+
+    from resonaate.sensors import sensor_base as sb
+    from resonaate.sensors.field_of_view import ConicFoV
+
+    twopi, hp = rv(TWOPI_F), rv(PI_F / 2)
+    d2r = rv(float(sb.const.DEG2RAD))
+    names = ["az0d", "az1d", "el0d", "el1d", "az", "el"] + (["rng", "rmin", "rmax"] if with_range else [])
+    V = {n: z3.Real(n) for n in names}
+    los = z3.Bool("los")
+    top_az, top_el = rv(Fraction_(359999, 1000)), rv(Fraction_(89999, 1000))
+    pre = [V["az0d"] >= 0, V["az0d"] <= top_az, V["az1d"] >= 0, V["az1d"] <= top_az, V["el0d"] >= -top_el, V["el1d"] <= top_el, V["el0d"] <= V["el1d"],
+           V["az"] >= 0, V["az"] < twopi, V["el"] >= -hp, V["el"] <= hp]
+    m0, m1, e0, e1 = d2r * V["az0d"], d2r * V["az1d"], d2r * V["el0d"], d2r * V["el1d"]
+    az_ok = z3.If(m0 <= m1, z3.And(m0 <= V["az"], V["az"] <= m1), z3.Or(V["az"] >= m0, V["az"] <= m1))
+    oracle = z3.And(los, V["el"] >= e0, V["el"] <= e1, az_ok)
+    if with_range:  # thorough: the configured minimum / maximum range (km) as solver variables too
+        pre += [V["rng"] >= 1, V["rmin"] >= 0, V["rmax"] >= V["rmin"]]
+        oracle = z3.And(oracle, V["rng"] >= V["rmin"], V["rng"] <= V["rmax"])
+    # counterexamples keep 1e-9 rad away from the mask edges (degree -> radian conversion rounding)
+    eps = rv(1e-9)
+    # ... and, so that a counterexample on a changed tree does not sit on an edge of whatever mask that tree stored, also away from the other
+    # configured numbers, converted or not
+    marks = [m0, m1, e0, e1, -e0, -e1, V["az0d"], V["az1d"], V["el0d"], V["el1d"]]
+    robust = [z3.Or(V[x] - m > eps, m - V[x] > eps) for x in ("az", "el") for m in marks]
+    if with_range:
+        robust += [z3.Or(V["rng"] - x > eps, x - V["rng"] > eps) for x in (V["rmin"], V["rmax"])]
+
+    for cname in classes:
+        cls = _sensor_cls(cname)
+
+        def run(cls=cls, cname=cname):
+            assume(*pre)
+            cfg = _sensor_cfg(cname, [real("az0d"), real("az1d")], [real("el0d"), real("el1d")], *((real("rmin"), real("rmax")) if with_range else ()))
+            s = cls.fromConfig(cfg, ConicFoV(0.1))
+            s.host = SimpleNamespace(eci_state=np.zeros(6), time=0.0)
+            with shadow(sb, getRange=lambda v: real("rng"), getAzimuth=lambda v: real("az"), getElevation=lambda v: real("el"),
+                        lineOfSight=lambda a, b: SBool(los)):
+                return sb.Sensor.isVisible(s, np.zeros(6), 1.0, 0.2, np.zeros(6))
+
+        results = explore(run, max_paths=1024)
+        rep.note(f"{cname}: paths={len(results)}")
+
+        def inputs(m, cname=cname):
+            d = {n: mfloat(m, V[n]) for n in names}
+            d["los"] = bool(z3.is_true(m.eval(los, model_completion=True)))
+            d["cls"] = cname
+            return d
+
+        n_vis = 0
+        for r in results:
+            tag = cname + ":" + "".join("T" if d else "F" for d in r.path.decisions)
+            cons = r.constraints + pre
+            if r.exc is not None:
+                if isinstance(r.exc, ValueError):
+                    rep.prove(f"ctor-accepts-documented-masks[{tag}]", z3.BoolVal(False), cons, inputs=inputs, replay=replay_ctor_mask,
+                              sample="the constructor does not reject masks inside the documented ranges")
+                else:
+                    rep.error("exception", f"{tag}: {r.exc!r}")
+                continue
+            vis, _why = r.out
+            visb = bool(vis)
+            n_vis += visb
+            rep.prove(f"ctor-mask-matches-config[{tag}]", oracle if visb else z3.Not(oracle), cons + robust, inputs=inputs, replay=replay_ctor_mask,
+                      sample="sensor built from a configuration: isVisible <=> LoS, elevation inside [e0, e1], azimuth inside the (possibly north-crossing) configured interval")
+        if n_vis < 2:
+            rep.error("reach", f"{cname}: fewer than two visible paths")
+        # reachability twins: a configured mask through north admits an azimuth above its first and one below its second limit
+        wrap = pre + robust + [V["az0d"] > V["az1d"] + 1, oracle]
+        rep.reachable(f"wrap-high[{cname}]", wrap + [V["az"] >= m0])
+        rep.reachable(f"wrap-low[{cname}]", wrap + [V["az"] <= m1])
+
+
+# ------------------------------------------------------------------------------
+# O5 Sun visible fraction: branch structure, domain, deep umbra
+# ------------------------------------------------------------------------------
+def _lens_area_py(ra, rb, d):
+    """Independent float oracle: area common to two discs of radii ra, rb whose centres are d apart (textbook circle-circle
+    intersection with the Heron-type kite term)."""
+    if d >= ra + rb:
+        return 0.0
+    if d <= abs(rb - ra):
+        return math.pi * min(ra, rb) ** 2
+    t1 = ra * ra * math.acos(max(-1.0, min(1.0, (d * d + ra * ra - rb * rb) / (2 * d * ra))))
+    t2 = rb * rb * math.acos(max(-1.0, min(1.0, (d * d + rb * rb - ra * ra) / (2 * d * rb))))
+    k = (-d + ra + rb) * (d + ra - rb) * (d - ra + rb) * (d + ra + rb)
+    return t1 + t2 - 0.5 * math.sqrt(max(k, 0.0))
+
+
+def _sunfrac_oracle_py(sat, sun):
+    """Visible fraction of the Sun's disc by apparent-disc geometry (plus the documented sunward early exit)."""
+    from resonaate.physics.bodies import Earth
+    from resonaate.physics.bodies.third_body import Sun
+
+    ss = sun - sat
+    n_ss, n_sat = math.sqrt(ss @ ss), math.sqrt(sat @ sat)
+    a, b = math.asin(min(1.0, Sun.radius / n_ss)), math.asin(min(1.0, Earth.radius / n_sat))
+    c = math.atan2(math.sqrt(max((np.cross(-sat, ss) ** 2).sum(), 0.0)), float(-sat @ ss))
+    info = {"apparent_sun_radius": a, "apparent_earth_radius": b, "separation": c}
+    if math.sqrt(sun @ sun) >= n_ss:
+        return 1.0, info, True
+    edge = min(abs(c - abs(b - a)), abs(c - (a + b)))
+    info["distance_to_region_edge_rad"] = edge
+    return 1.0 - _lens_area_py(a, b, c) / (math.pi * a * a), info, edge > 1e-9
+
+
+def replay_sunfrac(data):
+    """Real calculateSunVizFraction on plain floats against the independent disc-overlap oracle."""
+    import warnings
+
+    from resonaate.physics import sensor_utils as su
+
+    sat, sun = np.array(data["sat"], dtype=float), np.array(data["sun"], dtype=float)
+    exp, info, robust = _sunfrac_oracle_py(sat, sun)
+    try:
+        with warnings.catch_warnings():
+            warnings.simplefilter("ignore")
+            with np.errstate(invalid="raise", divide="raise"):  # sqrt / arcsin / arccos outside their domain, division by zero
+                got = float(su.calculateSunVizFraction(sat, sun))
+    except (FloatingPointError, ZeroDivisionError) as e:
+        info.update({"calculateSunVizFraction": f"floating-point exception: {e}", "disc_overlap_oracle": exp})
+        return True, info
+    bad = (not math.isfinite(got)) or got < -1e-9 or got > 1 + 1e-9 or (robust and abs(got - exp) > 1e-6)
+    info.update({"calculateSunVizFraction": got, "disc_overlap_oracle": exp})
+    return bool(bad), info
+
+
+def _sun_inputs_gram(m):
+    """Gram entries (|sat|^2, |sun|^2, sat.sun) of a model -> concrete positions."""
+    a, b, c = (mfloat(m, z3.Real(n)) for n in ("G_sat_sat", "G_sun_sun", "G_sat_sun"))
+    x = c / math.sqrt(a)
+    return {"sat": [math.sqrt(a), 0.0, 0.0], "sun": [x, math.sqrt(max(b - x * x, 0.0)), 0.0], "gram": [a, b, c]}
+
+
+def _positions_from_angles(a, b, c):
+    """Satellite / Sun positions whose apparent Sun radius, apparent Earth radius and centre separation are (a, b, c)."""
+    from resonaate.physics.bodies import Earth
+    from resonaate.physics.bodies.third_body import Sun
+
+    r, dist = Earth.radius / math.sin(b), Sun.radius / math.sin(a)
+    sat = np.array([-r, 0.0, 0.0])
+    ss = dist * np.array([math.cos(c), math.sin(c), 0.0])
+    return sat, sat + ss
+
+
 def o5_sunfrac(rep):
     from resonaate.physics import sensor_utils as su
+    from symx.core import free_vars
+    from resonaate.physics.bodies import Earth
+    from resonaate.physics.bodies.third_body import Sun
 
     def run():
         sat, sun = reals("sat", 3), reals("sun", 3)
@@ -499,6 +741,7 @@ def o5_sunfrac(rep):
 
     results = explore(run, max_paths=64, branch_timeout_ms=10000)
     n = 0
+    n_axis = 0
     for r in results:
         if r.exc is not None:
             rep.error("exception", repr(r.exc))
@@ -506,10 +749,9 @@ def o5_sunfrac(rep):
         out, cut, cut2 = r.out
         tag = "".join("T" if d else "F" for d in r.path.decisions)
         a, b, c = cut.G[0][0], cut.G[1][1], cut.G[0][1]  # |sat|^2, |sun|^2, sat.sun
-        from resonaate.physics.bodies import Earth
-        from resonaate.physics.bodies.third_body import Sun
 
-        pre = cut.facts() + [a >= rv(float(Earth.radius) ** 2), a + b - 2 * c >= rv(float(Sun.radius) ** 2)]
+        pre = cut.facts() + [a >= rv(_fr(Earth.radius) ** 2), a + b - 2 * c >= rv(_fr(Sun.radius) ** 2)]  # exact squares of the code's constants
+        # the domain conditions met on the way are NOT taken as hypotheses here: they are proved below (domain[...])
         cons = r.constraints + pre
         if cut2.unmatched:
             rep.note(f"unmatched {cut2.unmatched}")
@@ -519,12 +761,30 @@ def o5_sunfrac(rep):
             continue
         n += 1
         # sunward side: |sun| >= |sun - sat|  =>  fraction 1
-        rep.prove(f"sunward-full[{tag}]", z3.Implies(b >= a + b - 2 * c, ot == 1), cons, timeout_ms=20000,
+        rep.prove(f"sunward-full[{tag}]", z3.Implies(b >= a + b - 2 * c, ot == 1), cons, timeout_ms=20000, inputs=_sun_inputs_gram, replay=replay_sunfrac,
                   sample="satellite closer to the Sun than the Earth's centre => fraction 1")
         if z3.is_rational_value(z3.simplify(ot)):
-            rep.prove(f"range[{tag}]", z3.And(ot >= 0, ot <= 1), cons, sample="constant branches return 0 or 1")
+            rep.prove(f"range[{tag}]", z3.And(ot >= 0, ot <= 1), cons, inputs=_sun_inputs_gram, replay=replay_sunfrac, sample="constant branches return 0 or 1")
+        # realistic geometry: satellite from the surface to 10.5 Earth radii, Sun at 0.9 AU or farther
+        realistic = [a <= rv((10.5 * float(Earth.radius)) ** 2), b >= rv(1.35e8 ** 2)]
+        # every sqrt / arcsin / arccos argument and divisor met on this path is inside its domain (the result is a number, not NaN)
+        # (conditions over the angle values themselves - the penumbra formula - are O5c's subject: there the angles are solver variables and
+        # a counterexample is a faithful geometry, here they are contract-modelled and a model of them would not replay)
+        for k, (cond, hyp) in enumerate(r.path.domain_obligations()):
+            if any(x.startswith(("asin!", "acos!", "sqrt!")) for x in free_vars(cond)):
+                continue
+            rep.prove(f"domain[{tag}.{k}]", cond, hyp + pre + realistic, timeout_ms=20000, inputs=_sun_inputs_gram, replay=replay_sunfrac,
+                      sample="arguments of sqrt/arcsin/arccos and divisors stay inside their domains for every realistic geometry")
+        # deep in the umbra: satellite on the anti-Sun axis behind the Earth => fraction 0
+        axis = [c < 0, c * c == a * b]
+        if rep.feasible(f"anti-sun-axis-{tag}", cons + realistic + axis) is not None:
+            n_axis += 1
+        rep.prove(f"umbra-axis-zero[{tag}]", ot == 0, cons + realistic + axis, timeout_ms=30000, inputs=_sun_inputs_gram, replay=replay_sunfrac,
+                  sample="satellite on the Earth-Sun line behind the Earth (deep umbra) => fraction 0")
     if n < 3:
         rep.error("reach", f"only {n} feasible branches of calculateSunVizFraction")
+    if n_axis < 1:
+        rep.error("reach", "no path is compatible with the anti-Sun axis geometry")
 
 
 def replay_sunfrac_edge(d):
@@ -605,10 +865,156 @@ def o5b_sunfrac_edge(rep):
         m = rep.reachable("umbra-edge-reachable", cons, timeout_ms=30000)
         if m is None:
             continue
-        rep.prove("umbra-edge-zero", out.t == 0, cons, timeout_ms=60000, inputs=lambda mm: {"r": 20000.0}, replay=replay_sunfrac_edge,
+        rep.prove("umbra-edge-zero", out.t == 0, cons, timeout_ms=30000, inputs=lambda mm: {"r": 20000.0}, replay=replay_sunfrac_edge,
                   sample="partial-occultation formula at c = b - a (Sun's disk just fully covered) returns 0: the shadow function is continuous at the umbra edge")
     if n != 1:
         rep.error("reach", f"expected exactly one non-constant branch, got {n}")
+
+
+# ------------------------------------------------------------------------------
+# O5c Sun visible fraction: complete specification over the apparent radii and separation
+# ------------------------------------------------------------------------------
+def _abc_inputs(m):
+    a, b, c = (mfloat(m, z3.Real(n)) for n in ("ang0", "ang1", "sep"))
+    sat, sun = _positions_from_angles(a, b, c)
+    return {"sat": sat.tolist(), "sun": sun.tolist(), "apparent_sun_radius": a, "apparent_earth_radius": b, "separation": c}
+
+
+def o5c_sunfrac_exact(rep):
+    """With a (apparent Sun radius), b (apparent Earth radius), c (apparent separation of the centres) as solver variables and not on
+    the sunward side: result == 0 for c < b - a, == 1 for c >= a + b, and in between == 1 - (area common to the two apparent
+    discs)/(area of the Sun's disc), the common area written independently of the code as the sum of the two circular segments
+    a^2 (al - sin al cos al) + b^2 (be - sin be cos be) with al, be the triangle angles given by the law of cosines."""
+    from resonaate.physics import sensor_utils as su
+    from symx.core import free_vars, refute, solve
+
+    hp = rv(PI_F / 2)
+
+    def run():
+        sat, sun = reals("sat", 3), reals("sun", 3)
+        cut = GramCut({"sat": sat, "sun": sun}, su.dot, su.norm, prefix="G")
+        cut2 = _DiffCut(cut, sat, sun)
+        angs = []
+
+        def asin_provider(u):
+            x = real(f"ang{len(angs)}")
+            assume(x.t > 0, x.t < hp)
+            angs.append(x)
+            return x
+
+        state = {"n": 0}
+        real_arccos = su.arccos
+
+        def acos_provider(u):
+            state["n"] += 1
+            if state["n"] == 1:
+                x = real("sep")
+                assume(x.t >= 0, x.t <= rv(PI_F))
+                angs.append(x)
+                return x
+            return real_arccos(u)
+
+        with shadow(su, dot=cut2.dot, norm=cut2.norm, arcsin=asin_provider, arccos=acos_provider):
+            out = su.calculateSunVizFraction(sat, sun)
+        return out, angs, cut
+
+    results = explore(run, max_paths=64, branch_timeout_ms=10000)
+    A, B, C = z3.Real("ang0"), z3.Real("ang1"), z3.Real("sep")
+    # apparent Earth disc larger than the apparent Sun disc; c <= 3/2 keeps every counterexample realisable as a non-sunward geometry
+    pre = [A > 0, B < hp, B >= A + rv(Fraction_(1, 1000)), C >= 0, C <= rv(Fraction_(3, 2))]
+    realistic = [A >= rv(Fraction_(4, 1000)), A <= rv(Fraction_(6, 1000)), B >= rv(Fraction_(9, 100))]
+    eps = rv(1e-6)
+    robust = [z3.Or(C - (B - A) > eps, (B - A) - C > eps), z3.Or(C - (A + B) > eps, (A + B) - C > eps)]
+    n_sun = n_const = n_part = 0
+    for r in results:
+        if r.exc is not None:
+            rep.error("exception", repr(r.exc))
+            continue
+        out, angs, cut = r.out
+        tag = "".join("T" if d else "F" for d in r.path.decisions)
+        if len(angs) != 3 or [str(x.t) for x in angs] != ["ang0", "ang1", "sep"]:
+            rep.error("shape", f"expected arcsin, arcsin, arccos providers in this order, got {[str(x.t) for x in angs]}")
+            continue
+        ag, cg = cut.G[0][0], cut.G[0][1]
+        ot = out.t if isinstance(out, SReal) else rv(out)
+        # the sunward early exit (|sun| >= |sun - sat|  <=>  2 sat.sun >= |sat|^2) is O5's subject
+        v = solve(r.constraints + cut.facts() + [2 * cg < ag], 20000)
+        if v.status == "unsat":
+            n_sun += 1
+            continue
+        if v.status != "sat":
+            rep.undecided(f"non-sunward[{tag}]", "could not decide whether the path is the sunward exit")
+            continue
+
+        def untainted(cn):
+            return not any(x.startswith(("G_", "nrm_", "sat_", "sun_")) for x in free_vars(cn))
+
+        cons = [cn for cn in r.constraints if untainted(cn)] + pre
+        if rep.feasible(f"path-{tag}", cons) is None:
+            continue
+        if z3.is_rational_value(z3.simplify(ot)):
+            n_const += 1
+            rep.prove(f"constant-matches-spec[{tag}]", z3.If(C < B - A, ot == 0, z3.If(C >= A + B, ot == 1, False)), cons + robust,
+                      inputs=_abc_inputs, replay=replay_sunfrac, sample="a constant 0 is returned only in the umbra (c < b - a), a constant 1 only outside the penumbra (c >= a + b)")
+            continue
+        n_part += 1
+        a, b, c = angs
+        code_acos = list(r.path.apps.get("arccos", []))
+        code_sqrt = list(r.path.apps.get("sqrt", []))
+        rep.prove(f"partial-only-in-penumbra[{tag}]", z3.And(C >= B - A, C < A + B), cons, inputs=_abc_inputs, replay=replay_sunfrac,
+                  sample="the lens formula is used only for b - a <= c < a + b")
+        # no NaN: every sqrt / arccos argument and divisor of the penumbra formula is inside its domain
+        for k, (cond, hyp) in enumerate(r.path.domain_obligations()):
+            if not untainted(cond):
+                continue
+            rep.prove(f"domain[{tag}.{k}]", cond, [h for h in hyp if untainted(h)] + pre, inputs=_abc_inputs, replay=replay_sunfrac,
+                      sample="sqrt / arccos arguments and divisors of the penumbra formula are inside their domains")
+        # independent oracle on the same path: law-of-cosines angles of the triangle (a, b, c), circular-segment areas
+        with resume(r.path):
+            ca = (a * a + c * c - b * b) / (2 * a * c)
+            cb = (b * b + c * c - a * a) / (2 * b * c)
+            al, be = ca.arccos(), cb.arccos()
+            sa, sb = al.sin(), be.sin()
+            lens = a * a * (al - sa * ca) + b * b * (be - sb * cb)
+            oracle = 1 - lens / (SReal(PI_F) * a * a)
+        cons = [cn for cn in r.constraints if untainted(cn)] + pre
+        # lemma chain (each proved by the solver before it is used): law of sines, projection, and which of the code's own
+        # arccos / sqrt values coincide with the oracle's angles / half-chord (arccos is a function: equal arguments, equal values)
+        lemmas = [("law-of-sines", a.t * sa.t == b.t * sb.t), ("projection", a.t * ca.t + b.t * cb.t == c.t)]
+        for k, (ak, _uk) in enumerate(code_acos):
+            lemmas += [(f"code-arccos{k}=alpha", ak == al.t), (f"code-arccos{k}=beta", ak == be.t)]
+        for k, (rk, _argk) in enumerate(code_sqrt):
+            if untainted(rk == 0):
+                lemmas += [(f"code-sqrt{k}=half-chord", rk == a.t * sa.t)]
+        # the lemmas are proved once, from the path constraints alone (a weaker hypothesis set than `pre`: faster, and valid a fortiori)
+        hyp = [cn for cn in r.constraints if untainted(cn)]
+        proven = []
+        for nm, lem in lemmas:
+            v = refute(lem, hyp, 20000)
+            rep._item(f"lemma[{tag}]:{nm}", "lemma", v)
+            if v.status == "unsat":
+                hyp.append(lem)
+                proven.append(lem)
+        tol = rv(1e-3)
+        near = z3.And(ot - oracle.t <= tol, oracle.t - ot <= tol)
+        # first inside the realistic box (Sun's apparent radius ~0.00465 rad, satellite below 11 Earth radii) so that a counterexample
+        # is a geometry that occurs in a scenario; then for every 0 < a < b < pi/2
+        ok = rep.prove(f"equals-disc-overlap-realistic[{tag}]", near, cons + proven + robust + realistic, timeout_ms=30000, inputs=_abc_inputs, replay=replay_sunfrac,
+                       sample="penumbra value == 1 - (area common to the apparent discs of Sun and Earth)/(area of the Sun's disc), realistic radii")
+        if ok:
+            ok = rep.prove(f"equals-disc-overlap[{tag}]", near, cons + proven + robust, timeout_ms=30000, inputs=_abc_inputs, replay=replay_sunfrac,
+                           sample="penumbra value == 1 - (area common to the apparent discs of Sun and Earth)/(area of the Sun's disc)")
+        if ok:
+            ok = rep.prove(f"equals-disc-overlap-exactly[{tag}]", ot == oracle.t, cons + proven, timeout_ms=30000, inputs=_abc_inputs, replay=replay_sunfrac,
+                           sample="the same as an exact identity (no tolerance, no margin to the region edges)")
+        if ok:
+            # upper end of the range: overlap area >= 0 from  sin t <= t  (t >= 0), instantiated for the two triangle angles
+            sin_le = [sa.t <= al.t, sb.t <= be.t]
+            rep.prove(f"at-most-one[{tag}]", ot <= 1, cons + proven + sin_le + [ot == oracle.t], timeout_ms=30000,
+                      inputs=_abc_inputs, replay=replay_sunfrac, sample="penumbra value <= 1")
+        rep.reachable(f"penumbra-interior[{tag}]", cons + robust + [C > B - A, C < A + B], timeout_ms=30000)
+    if n_sun < 1 or n_const < 2 or n_part != 1:
+        rep.error("reach", f"expected sunward exit, two constant branches and one formula branch; got {n_sun}, {n_const}, {n_part}")
 
 
 class _DiffCut:
@@ -711,24 +1117,31 @@ def o6_limb(rep):
         rep.error("reach", "no path")
 
 
-REPLAYS = {"O5b": replay_sunfrac_edge, "O1": replay_los, "O2": replay_conic, "O3": replay_rect, "O3b": replay_azel, "O4": replay_mask, "O6": replay_limb}
+REPLAYS = {"O5b": replay_sunfrac_edge, "O4b": replay_ctor_mask, "O4b-range": replay_ctor_mask, "O5": replay_sunfrac, "O5c": replay_sunfrac, "O1": replay_los, "O2": replay_conic, "O3": replay_rect, "O3b": replay_azel, "O4": replay_mask, "O6": replay_limb}
 
 
 def obligations(tier):
-    return [
+    extra = []
+    if tier == "thorough":
+        extra = [Ob("O4b-range", lambda rep: o4b_ctor_masks(rep, with_range=True),
+                    "as O4b with the configured minimum/maximum range as solver variables", 600)]
+    return extra + [
         Ob("O1", o1_los, "lineOfSight == exact segment-vs-sphere test, symmetric", 120),
         Ob("O2", o2_conic, "conic FoV reflexive, rotation invariant, <=> normalised dot >= cos(cone/2)", 120),
         Ob("O3", o3_rect, "rectangular FoV reflexive and invariant under common azimuth rotation incl. the seam", 180),
         Ob("O3b", o3b_azel, "getAzimuth/getElevation ranges and direction", 180),
         Ob("O4", o4_masks, "az/el/range masks incl. wrapping", 120),
+        Ob("O4b", o4b_ctor_masks, "masks given to the sensor constructors (fromConfig, degrees) keep their meaning, incl. masks through north", 180),
         Ob("O5b", o5b_sunfrac_edge, "Sun fraction continuous at the umbra edge", 300),
-        Ob("O5", o5_sunfrac, "Sun fraction branch structure", 180),
+        Ob("O5", o5_sunfrac, "Sun fraction: sunward side 1, deep umbra 0, constant branches in range, no NaN for realistic geometry", 180),
+        Ob("O5c", o5c_sunfrac_exact, "Sun fraction == 1 - disc overlap / Sun disc over (apparent radii, separation): umbra 0, penumbra lens area, outside 1", 240),
         Ob("O6", o6_limb, "Earth limb == tangent cone", 120),
     ]
 
 LEVEL_TEXT = ("Bounded symbolic verification: the real predicates (lineOfSight, conic/rectangular FoV, az/el/range masks, Sun-fraction branch "
-              "structure, Earth-limb test, getAzimuth/getElevation) are executed on solver variables; for every path z3 proves the geometric "
+              "structure and penumbra value, sensor constructors' mask hand-over, Earth-limb test, getAzimuth/getElevation) are executed on solver variables; for every path z3 proves the geometric "
               "oracle (unsat) for all real-valued inputs in the stated ranges, or returns a model that is replayed on the float code. "
               "Right level because the interesting inputs (seam, tangency, wrapping masks) are measure-thin regions sampling does not hit.")
 LEVEL_NOTE = ("Real arithmetic instead of doubles (rounding outside the claim); contracts for sqrt/arccos/arcsin/arctan2 (angle algebra, monotonicity "
-              "instances); O3/O4 use providers for az/el/range/LoS primitives (each checked separately in O1/O3b); partial-occultation formula value not checked.")
+              "instances); O3/O4/O4b use providers for az/el/range/LoS primitives (each checked separately in O1/O3b); the penumbra value is proved equal to the "
+              "circular-segment form of the disc overlap over the apparent radii/separation (its lower bound 0 then rests on geometry, not on a solver verdict).")
